@@ -22,6 +22,11 @@ os.environ.setdefault("PYTHONHASHSEED", "0")
 import warnings
 warnings.simplefilter("ignore")
 import numpy as np
+try:
+    from pymoo.config import Config
+    Config.warnings['not_compiled'] = False
+except Exception:
+    pass
 
 # ----------------------------------------------------------------------------------------------
 # Coq literals
@@ -536,8 +541,56 @@ class Check:
         except Exception as e:
             return {"exception": "%s: %s" % (type(e).__name__, str(e)[:300]), "trace": traceback.format_exc()[-1500:]}
 
+    ISOLATE = False      # run the implementation in a forked worker so that a crash of a compiled kernel is an observation
+
     def run_cases(self, cases):
-        return [(c, self.safe_run(c)) for c in cases]
+        if not self.ISOLATE:
+            return [(c, self.safe_run(c)) for c in cases]
+        return self.run_cases_isolated(cases)
+
+    def run_cases_isolated(self, cases):
+        import multiprocessing as mp
+        ctx = mp.get_context("fork")
+        results = [None] * len(cases)
+        start = 0
+        while start < len(cases):
+            parent, child = ctx.Pipe(duplex=False)
+
+            def work(conn, lo):
+                try:
+                    for i in range(lo, len(cases)):
+                        conn.send((i, self.safe_run(cases[i])))
+                    conn.send((-1, None))
+                finally:
+                    conn.close()
+            pr = ctx.Process(target=work, args=(child, start))
+            pr.start()
+            child.close()
+            done = False
+            last = start - 1
+            while True:
+                try:
+                    if parent.poll(self.CASE_TIMEOUT + 30):
+                        i, obs = parent.recv()
+                    else:
+                        raise EOFError
+                except (EOFError, OSError):
+                    break
+                if i == -1:
+                    done = True
+                    break
+                results[i] = obs
+                last = i
+            pr.join(5)
+            if pr.is_alive():
+                pr.kill(); pr.join()
+            if done:
+                break
+            crashed = last + 1
+            if crashed < len(cases):
+                results[crashed] = {"exception": "ProcessCrash: worker died (exit code %s) while running this case" % pr.exitcode, "crash": True}
+            start = crashed + 1
+        return [(c, r if r is not None else {"exception": "ProcessCrash: not run"}) for c, r in zip(cases, results)]
 
     def judge(self, results):
         """oracle + correspondence on a list of (case, obs).  returns dict"""
